@@ -7,9 +7,7 @@ package main
 // the real HostMap / HandshakeManager / AddRelay through the overlay shim verif_hostmap.go.
 
 import (
-	"encoding/json"
 	"fmt"
-	"os"
 	"sort"
 	"strings"
 
@@ -23,7 +21,6 @@ func init() {
 	hx.Register("hostmap_idx", func(c *hx.Ctx) { runHostmap(c, true) })
 }
 
-const hmFindingSig = "stale-delete-after-index-reuse"
 
 func genHostmap(c *hx.Ctx) {
 	var sb strings.Builder
@@ -154,7 +151,6 @@ type hmHist struct {
 	unsafeAt int
 	idxSpace int // candidates for "fresh" indexes are drawn from 1..idxSpace
 	peers    [][]uint64
-	allowUns bool
 }
 
 func newHist(c *hx.Ctx, idxSpace int) *hmHist {
@@ -288,9 +284,13 @@ func (h *hmHist) opResp(addrs []uint64, remote uint32, script []uint32) {
 		hx.App("RResp", hx.N(uint64(out)), hx.N(uint64(local))), []any{"resp", id, addrs, remote, u32s(served)})
 }
 
+// a stale delete whose index is held by another tunnel by now (fix F16: it must leave that entry alone)
 func (h *hmHist) noteUnsafe(u bool) {
-	if u && h.unsafeAt < 0 {
-		h.unsafeAt = len(h.steps)
+	if u {
+		h.feat["reuse"] = true
+		if h.unsafeAt < 0 {
+			h.unsafeAt = len(h.steps)
+		}
 	}
 }
 
@@ -575,23 +575,13 @@ func (h *hmHist) randomOp(idxHeavy bool) {
 		}
 		h.opComplete(id, addrs, h.remote())
 	case 4:
-		id := h.anyID(6, 1, 3)
-		if !h.allowUns && h.unsafeDelete(id) {
-			h.opPromote(id)
-			return
-		}
-		h.opDelete(id)
+		h.opDelete(h.anyID(6, 1, 3))
 	case 5:
 		h.opPromote(h.anyID(6, 1, 3))
 	case 6:
 		h.opAddRelay(h.anyID(8, 1, 2), uint64(1+h.c.Intn(7)), h.script(true))
 	case 7:
-		id := h.anyID(2, 6, 3)
-		if !h.allowUns && h.unsafePendDelete(id) {
-			h.opAlloc(id, h.script(false))
-			return
-		}
-		h.opPendDelete(id, h.c.Chance(0.5))
+		h.opPendDelete(h.anyID(2, 6, 3), h.c.Chance(0.5))
 	}
 }
 
@@ -603,8 +593,8 @@ func (h *hmHist) kind() string {
 		}
 	}
 	k := "hist"
-	if h.unsafeAt >= 0 {
-		k = "hist-unsafe"
+	if h.feat["reuse"] {
+		k = "hist-reuse"
 	}
 	if len(fs) > 0 {
 		k += "+" + strings.Join(fs, "+")
@@ -624,7 +614,7 @@ func (h *hmHist) emit(cw *hx.CaseWriter, ctor, label string) {
 		kind = h.kind()
 	}
 	cw.Add(hx.App(ctor, hx.List(h.steps), dumpLit(h.prev)), kind, nfeat >= 2,
-		map[string]any{"ops": h.ops, "unsafe_at": h.unsafeAt, "witness": ctor == "CWitness", "peers": h.peers})
+		map[string]any{"ops": h.ops, "stale_delete_on_reused_index_at": h.unsafeAt, "peers": h.peers})
 }
 
 // ---- fixed histories (corpus / boundaries), emitted first ------------------------------------------------
@@ -715,9 +705,9 @@ func hmCorpus(c *hx.Ctx, cw *hx.CaseWriter) {
 	}
 }
 
-// hmWitness: the known finding. A tunnel is deleted, its local index is handed out again, and a second (stale)
-// delete of the first tunnel clears the new owner's Indexes entry; the same through a relay index and through
-// the pending index map.
+// hmWitness: regression histories for fix F16. A tunnel is deleted, its local index is handed out again, and a
+// second (stale) delete of the first tunnel must leave the new owner's Indexes entry alone; the same through a
+// relay index and through the pending index map.
 func hmWitness(c *hx.Ctx, cw *hx.CaseWriter) {
 	{
 		h := newHist(c, 50)
@@ -725,7 +715,8 @@ func hmWitness(c *hx.Ctx, cw *hx.CaseWriter) {
 		h.opDelete(1)
 		h.opResp([]uint64{2}, 2, []uint32{5})
 		h.opDelete(1)
-		h.emit(cw, "CWitness", "witness-indexes")
+		h.opPromote(2)
+		h.emit(cw, "CHist", "corpus-stale-indexes")
 	}
 	{
 		h := newHist(c, 50)
@@ -735,7 +726,8 @@ func hmWitness(c *hx.Ctx, cw *hx.CaseWriter) {
 		h.opResp([]uint64{2}, 2, []uint32{6})
 		h.opAddRelay(2, 9, []uint32{7})
 		h.opDelete(1)
-		h.emit(cw, "CWitness", "witness-relays")
+		h.opDelete(2)
+		h.emit(cw, "CHist", "corpus-stale-relays")
 	}
 	{
 		h := newHist(c, 50)
@@ -744,36 +736,9 @@ func hmWitness(c *hx.Ctx, cw *hx.CaseWriter) {
 		h.opStart(2)
 		h.opAlloc(2, []uint32{5})
 		h.opPendDelete(1, false)
-		h.emit(cw, "CWitness", "witness-pending")
+		h.opComplete(2, []uint64{2}, 3)
+		h.emit(cw, "CHist", "corpus-stale-pending")
 	}
-}
-
-func hmFindingListed() bool {
-	if os.Getenv("VERIF_HM_WITNESS") == "1" { // debugging aid: emit the witness histories regardless
-		return true
-	}
-	for _, p := range []string{"../KNOWN_FINDINGS.json", "/verif/KNOWN_FINDINGS.json"} {
-		b, err := os.ReadFile(p)
-		if err != nil {
-			continue
-		}
-		var d struct {
-			Findings []struct {
-				Signature string `json:"signature"`
-				Status    string `json:"status"`
-			} `json:"findings"`
-		}
-		if json.Unmarshal(b, &d) != nil {
-			return false
-		}
-		for _, f := range d.Findings {
-			if f.Signature == hmFindingSig && f.Status == "known" {
-				return true
-			}
-		}
-		return false
-	}
-	return false
 }
 
 func runHostmap(c *hx.Ctx, idxHeavy bool) {
@@ -783,9 +748,7 @@ func runHostmap(c *hx.Ctx, idxHeavy bool) {
 	}
 	cw := c.NewCaseWriter("From NV Require Import model.HostMap corr.HostMap_corr.", "HostMap_corr.case", check, 20)
 	hmCorpus(c, cw)
-	if hmFindingListed() {
-		hmWitness(c, cw)
-	}
+	hmWitness(c, cw)
 	for i := 0; i < c.N; i++ {
 		space := 40
 		if idxHeavy {
@@ -794,7 +757,6 @@ func runHostmap(c *hx.Ctx, idxHeavy bool) {
 			space = 8 + c.Intn(8)
 		}
 		h := newHist(c, space)
-		h.allowUns = c.Chance(0.15)
 		h.makePeers()
 		n := 40 + c.Intn(21)
 		for j := 0; j < n; j++ {
